@@ -259,6 +259,11 @@ def run(tier, seed, only=None):
         mphys_groups(rep, tier, timeout)
         mphys_scenario(rep, tier, timeout)
         index_bookkeeping(rep, tier, timeout)
+    if not only or "sections" in only:
+        # splitting a wing into sections (real MultiSecGeometry) against the same wing as one surface (shared with C13)
+        from props import c13
+
+        c13.multisection_vs_single(rep, tier, timeout)
     rep.stubs.add("vortex kernels -> canonicalised uninterpreted functions")
     rep.assumptions = ["real arithmetic", "same circulations given to both compositions (equal systems imply equal solutions when nonsingular)",
                        "not decided: vanishing influence of a far-away surface (a limit); CM normalisation by the first surface is documented behaviour",
